@@ -49,7 +49,8 @@ SNIPPETS = [
 
 # every lexical class crossed with every syntactic position (templates filled from pools)
 IDENTS = ['B', 'x.B', 'a.b.C', 'a.b.c.D', '1B', 'B9', '_b', 'B\u00e9', 'b-c', 'B.', '.B', 'B..C', '', 'INT', 'INTx', 'ID', 'OBJECT', 'eolterm',
-          'skipws', 'ws', 'import', 'as', 'reference', 'parent', 'STRICTFLOAT', 'BASETYPE', 'NUMBERS', 'b_c', 'B C']
+          'skipws', 'ws', 'import', 'as', 'reference', 'parent', 'STRICTFLOAT', 'BASETYPE', 'NUMBERS', 'b_c', 'B C',
+          'imports', 'references', 'assembly', 'importfoo', 'referencefoo', 'eoltermx', 'parents', 'asx', 'wsx', 'skipwsx', 'INTs']
 STRS = ["'a'", '"a"', "''", '""', "'\\''", '"\\""', "'a b'", "'\\n'", "' '", "'/'", "'['", "'a", 'a"', "'\u00e9'", "'\\u00e9'"]
 REGS = ['/a/', '/\\//', '/[a-z]+/', '/ /', '//', '/a\\\\/', '/(a)/', '/a/ ', '/a', '/\\d+(\\.\\d+)?/']
 TEMPLATES = [
@@ -60,7 +61,8 @@ TEMPLATES = [
     "A[{I}]: 'x';", "A[{I}={S}]: 'x';", "A[{I}, {I}={S}]: 'x';", "A[{I}={I}]: 'x';", "import {I}\nA: 'x';", "import {I}\nimport {I}\nA: 'x';",
     "reference {I}\nA: 'x';", "reference {I} as {I}\nA: 'x';", "A: a+=INT[{S}];", "A: a+=INT[{S} eolterm];", "A: a+=INT[eolterm {S}];",
     "A: a+=INT[{R}];", "A: a+=INT[{I}];", "A: 'x'*[{S} {S}];", "A: {S};", "A: {R};", "A: a={S};", "A: a={R};", "A: {S}-;", "A: {R}-;", "A: {S} {R} {S};",
-    "A: ({S} | {R})*;", "A: {R}{R};", "A: {R} / {R};", "A: {S}{S};", "A: a={I} b={I};", "A: ({I} {I})#[{S}];", "A: a=[{I}]*;", "A: a*=[{I}][{S}];",
+    "A: ({S} | {R})*;", "import{I}\nA: 'x';", "reference{I}\nA: 'x';", "reference foo as{I}\nA: 'x';", "reference foo\n{I}: 'x';", "import foo\n{I}: 'x';",
+    "A: a+=INT[eolterm{I}];", "A: a+=INT[{S}eolterm];", "A: a=[B:ID|parent{I}(B)];", "A: a=[B:ID|parent({I})b];", "A[skipws{I}]: 'x';", "A[ws{I}={S}]: 'x';", "A: {R}{R};", "A: {R} / {R};", "A: {S}{S};", "A: a={I} b={I};", "A: ({I} {I})#[{S}];", "A: a=[{I}]*;", "A: a*=[{I}][{S}];",
     "A: a=[{I}:{I}|+mp:{I}.{I}*];", "A: a=[B:ID|+pm:{S}~{I}.~{I}];", "{I}: {I}; {I}: {I};", "A: 'x'; {I}", "A: 'x' // {I}\n;", "A: /* {I} */ 'x';",
 ]
 
